@@ -7,6 +7,7 @@ import (
 	"errors"
 	"fmt"
 	"runtime"
+	"strings"
 	"sync"
 	"sync/atomic"
 	"testing"
@@ -328,7 +329,7 @@ func execHybrid(c hyCase, x *verifkit.Ctx, c15 bool) (fail *verifkit.Failure) {
 		step = i
 		switch st.Op {
 		case "set":
-			if verifkit.Avoid("C14-stale-copy") {
+			if verifkit.Avoid("C14-stale-copy") || hyAlwaysSteer {
 				sec.mu.Lock()
 				_, hasCopy := sec.m[st.K]
 				sec.mu.Unlock()
@@ -600,7 +601,20 @@ func genHybrid(c15 bool) func(t *rapid.T) hyCase {
 				return hyStep{Op: "settle"}
 			}
 		})
-		c.Steps = rapid.SliceOfN(stepGen, 2, 40).Draw(t, "steps")
+		// a drawn element is a short group of steps: mostly one step, sometimes the scenario
+		// 'a TTL'd key is demoted, promoted again before its deadline, and read after it'
+		groupGen := rapid.Custom(func(t *rapid.T) []hyStep {
+			if rapid.IntRange(0, 9).Draw(t, "scenario") == 0 {
+				k := rapid.IntRange(0, c.Keys-1).Draw(t, "gk")
+				ttl := rapid.SampledFrom([]int64{2e9, 50e9}).Draw(t, "gttl")
+				return []hyStep{{Op: "set", K: k, TTL: ttl}, {Op: "overflow", N: c.MaxSize + 2}, {Op: "settle"}, {Op: "get", K: k},
+					{Op: "adv", Dt: ttl + rapid.SampledFrom([]int64{1, 1e9, 30e9}).Draw(t, "over")}, {Op: "get", K: k}}
+			}
+			return []hyStep{stepGen.Draw(t, "step")}
+		})
+		for _, g := range rapid.SliceOfN(groupGen, 2, 32).Draw(t, "groups") {
+			c.Steps = append(c.Steps, g...)
+		}
 		return c
 	}
 }
@@ -616,6 +630,26 @@ func TestVerifC14(t *testing.T) {
 		ID: "C14", Gen: genHybrid(false),
 		Exec:        func(c hyCase, x *verifkit.Ctx) *verifkit.Failure { return execHybrid(c, x, false) },
 		Rule:        "C14: rapid draws MaxSize 2..16, plain or loading hybrid store, entry pool on in a third of the cases, 1..4 workers, admission probability {0,0.3,1}, optional failure scripts for secondary Set/Delete, whether the workers are awaited after each step, and up to 40 steps of Set/SetWithTTL (unique values) / Get / Delete / overflow(n) / advance+tick / settle / 'slowdel' (a 4 ms slow secondary Set during a demotion with a Delete of exactly that key issued while the worker is inside it); non-trivial = a key was demoted and later promoted, or a secondary call failed",
+		Assumptions: hyAssumptions,
+	})
+}
+
+// C03 on hybrid stores: the same executor, judged for expiry only (everything else it can
+// report belongs to C14/C15; the stale-copy region is always steered around here).
+var hyAlwaysSteer bool
+
+func TestVerifC03Hybrid(t *testing.T) {
+	hyAlwaysSteer = true
+	verifkit.Run(t, verifkit.Spec[hyCase]{
+		ID: "C03", Gen: genHybrid(false),
+		Exec: func(c hyCase, x *verifkit.Ctx) *verifkit.Failure {
+			f := execHybrid(c, x, false)
+			if f != nil && !strings.HasPrefix(f.Sig, "stale/expired") && !f.Sticky && !strings.HasPrefix(f.Sig, "hybrid/panic") {
+				return nil
+			}
+			return f
+		},
+		Rule:        "C03 (hybrid tier): the C14 generator and executor on plain and loading hybrid stores, judged for one thing only: a Get (answered from memory or from the secondary tier) never returns a value at or after the deadline of the write that produced it; includes the scenario 'TTL'd key demoted, promoted again before its deadline, read after it'; non-trivial as for C14",
 		Assumptions: hyAssumptions,
 	})
 }
